@@ -185,3 +185,16 @@ func HasEdge(s *Sel) bool {
 	}
 	return false
 }
+
+// HasEdgeEverywhere: every recursion clause of s has an edge in its sequence (what compilation requires).
+func HasEdgeEverywhere(s *Sel) bool {
+	if s.Op == 'R' && !HasEdge(s.Subs[0]) {
+		return false
+	}
+	for _, c := range s.Subs {
+		if !HasEdgeEverywhere(c) {
+			return false
+		}
+	}
+	return true
+}
